@@ -137,6 +137,13 @@ def run(ctx):
         pres = rng.uniform(800, 3000, nd)
         pres[rng.integers(0, nd)] = np.nan
         prod = pd.DataFrame({"Days": np.arange(nd), "Gas": gas, "Pressure": pres})
+        # row labels as the caller's table carries them: 0..n-1, or repeated (two exports joined without renumbering, so that an idle
+        # day of one shares its label with a producing day of the other): the rows decide what is drawn, not their labels
+        labels = ["repeated (two exports joined)", "0..n-1", "reversed"][k % 3]
+        if labels.startswith("repeated"):
+            prod.index = np.arange(nd) % (nd // 2 + 1)
+        elif labels == "reversed":
+            prod.index = np.arange(nd)[::-1]
         par = Parameters()
         tau, M, p0 = float(rng.uniform(50, 400)), float(rng.uniform(500, 5000)), float(rng.uniform(4000, 9000))
         par.add("tau", value=tau)
@@ -152,11 +159,13 @@ def run(ctx):
         case = dict(kind="single", table=tbp, pi=p0, pf=float(pres[keep][0]), nx=80, times=tt, sched=list(pres[keep]))
         ref = rescorr.run_impl(case)
         ev += 1
-        ok = (len(l1) == 2 and len(l2) == 1 and np.allclose(l1[0][0], tt) and np.allclose(l1[0][1], ref["rf"], rtol=1e-9)
-              and np.allclose(l1[1][1], np.cumsum(gas[keep]) / M) and np.allclose(l2[0][1], pres[keep]) and np.allclose(l2[0][0], tt))
+        cl = lambda a_, b_, **kw: np.shape(a_) == np.shape(b_) and np.allclose(a_, b_, **kw)     # a curve with other points is a mismatch
+        ok = (len(l1) == 2 and len(l2) == 1 and cl(l1[0][0], tt) and cl(l1[0][1], ref["rf"], rtol=1e-9)
+              and cl(l1[1][1], np.cumsum(gas[keep]) / M) and cl(l2[0][1], pres[keep]) and cl(l2[0][0], tt))
         if not ok:
             bad("production-comparison figure does not carry simulated recovery, cumulative production over M and frac-face pressure against time over tau",
-                dict(days=nd, tau=tau, M=M, p_initial=p0), "mismatch")
+                dict(days=nd, tau=tau, M=M, p_initial=p0, row_labels=labels, gas=[float(x) for x in gas], pressure=[None if np.isnan(x) else float(x) for x in pres]),
+                dict(points_drawn=[len(l_[0]) for l_ in l1 + l2], points_expected=int(keep.sum())))
     # ---------------- the same figure WITHOUT filtering, on records whose Days column is not 0, 1, 2, ... (starting at day 1,
     # every other day, monthly): the time axis is Days / tau and the simulation runs on it
     for k in range(3 if ctx.quick else 9):
@@ -178,8 +187,9 @@ def run(ctx):
         tt = days / tau
         ref = rescorr.run_impl(dict(kind="single", table=tbp, pi=p0, pf=float(pres[0]), nx=80, times=tt, sched=list(pres)))
         ev += 1
-        ok = (len(l1) == 2 and len(l2) == 1 and np.allclose(l1[0][0], tt) and np.allclose(l1[0][1], ref["rf"], rtol=1e-9)
-              and np.allclose(l1[1][0], tt) and np.allclose(l1[1][1], np.cumsum(gas) / M) and np.allclose(l2[0][1], pres) and np.allclose(l2[0][0], tt))
+        cl = lambda a_, b_, **kw: np.shape(a_) == np.shape(b_) and np.allclose(a_, b_, **kw)
+        ok = (len(l1) == 2 and len(l2) == 1 and cl(l1[0][0], tt) and cl(l1[0][1], ref["rf"], rtol=1e-9)
+              and cl(l1[1][0], tt) and cl(l1[1][1], np.cumsum(gas) / M) and cl(l2[0][1], pres) and cl(l2[0][0], tt))
         if not ok:
             bad("production-comparison figure (no filtering) does not carry simulated recovery, cumulative production over M and frac-face pressure "
                 "against Days over tau", dict(days=[float(x) for x in days[:5]], tau=tau, M=M, p_initial=p0, filter_zero_prod_days=False),
